@@ -2,6 +2,8 @@ import BSModel.Driver.Util
 import BSModel.Model.Render
 import BSModel.Model.Reparse
 import BSModel.Gen.Render
+import BSModel.Model.Entities
+import BSModel.Gen.Entities
 /-! line protocol of C05 (rendering and re-parsing)
 
     c05 render <flavour> <fmt> <tbl> <tree>   code-mirror `decode()` and `decode_contents()` of every tag of the tree in
@@ -9,7 +11,13 @@ import BSModel.Gen.Render
     c05 rspec  <flavour> <fmt> <tbl> <tree>   the same through `renderSpec`/`renderL`
     c05 trip   <flavour> <fmt> <tree>         the root's children as a forest:
                                               repr=<0|1> # emit=<events> # norm=<forest> # build=<forest> # norm2=<forest>
+    c05 top <rootAttr> <chain> <arg> <tbl> <tree>   `decode(formatter=arg)` incl. `formatter_for_name`/`_is_xml`:  D:<cps> | KeyError
     c05 subst <cps> | c05 quote <cps>         `substitute_xml`, `quoted_attribute_value`
+
+    chain   := - | <k>.<k>…      `known_xml` from the element up to its root: N | T | F
+    arg     := n:none | n:<cps>                                  registry key
+             | c:<kind>                                          a callable (kind 1/2/3 = the EntitySubstitution functions, 9 = graph in tbl)
+             | o:<kind>:<void cps|->:<cdata tag;tag (dotted)|->:<0|1>   a Formatter object
 
     flavour := h | x          (HTMLFormatter.REGISTRY / XMLFormatter.REGISTRY, generated)
     fmt     := none | <cps of the registry key>
@@ -108,7 +116,23 @@ def parseTbl (s : String) : List (PStr × PStr) :=
 def substOf (kind : Nat) (tbl : List (PStr × PStr)) : Option (PStr → PStr) :=
   if kind = 0 then none
   else if kind = 1 then some substXml
+  else if kind = 2 then some (BS.Entities.substHtml BS.Gen.htmlTable)      -- C09's model of substitute_html
+  else if kind = 3 then some (BS.Entities.substHtml5 BS.Gen.htmlTable)     -- C09's model of substitute_html5
   else some fun s => (lookupL tbl s).getD [63, 33]
+
+def fmtEnv (tbl : List (PStr × PStr)) : FmtEnv :=
+  ⟨BS.Gen.Render.registryOf, BS.Gen.Render.ctorDefaults, fun k => substOf k tbl⟩
+
+def parseChain (s : String) : List (Option Bool) :=
+  (splitNE "." s).map fun t => if t == "T" then some true else if t == "F" then some false else none
+
+def parseArg (s : String) (tbl : List (PStr × PStr)) : Option FmtArg :=
+  match s.splitOn ":" with
+  | ["n", k] => some (.name (if k == "none" then none else some (cps k)))
+  | ["c", k] => (substOf k.toNat! tbl).map FmtArg.fn
+  | ["o", k, v, cd, eb] =>
+    some (.obj ⟨substOf k.toNat! tbl, cps v, (splitNE ";" cd).map undots, eb == "1"⟩)
+  | _ => none
 
 def findSpec (flavour : String) (fmt : String) : Option FmtSpec :=
   let reg := if flavour == "x" then BS.Gen.Render.xmlRegistry else BS.Gen.Render.htmlRegistry
@@ -169,6 +193,13 @@ def handle : List String → String
     match findSpec fl fm with
     | some s => withTree rest (trip (mkFmt s []))
     | none => "no-such-formatter"
+  | "top" :: ra :: ch :: arg :: tbl :: rest =>
+    match parseArg arg (parseTbl tbl) with
+    | some a => withTree rest fun n =>
+        match decodeTop ci (fmtEnv (parseTbl tbl)) (ra == "1") (parseChain ch) a n with
+        | some d => "D:" ++ showL d
+        | none => "KeyError"
+    | none => "bad-arg"
   | ["subst", s] => showL (substXml (cps s))
   | ["quote", s] => showL (quoteAttr (cps s))
   | _ => "bad-op"
